@@ -81,14 +81,48 @@ def run_model(texts, procs=None):
     return res
 
 
+def fields(*names):
+    """projector for `key=value` state lines: keep the tag, the index (and device kind) and the
+    named fields only"""
+    keep = set(names)
+
+    def f(line):
+        t = line.split(' ')
+        head = [x for x in t[:3] if '=' not in x]
+        return ' '.join(head + [x for x in t[len(head):] if x.split('=', 1)[0] in keep])
+    return f
+
+
+def only(prefixes, g=None):
+    """projector keeping only lines that start with one of the prefixes (after the tag)"""
+    def f(line):
+        rest = line.split(' ', 1)[1] if ' ' in line else ''
+        if not rest.startswith(tuple(prefixes)):
+            return None
+        return g(line) if g else line
+    return f
+
+
 def project(stream, tags):
-    """Keep the lines whose tag is in `tags` (dict tag -> None | function(line)->line)."""
+    """Keep the lines whose tag is in `tags` (dict tag -> None | function(line) -> line | None).
+    State lines are deltas of the full line: after projecting, a line equal to the last projected
+    line with the same key is dropped (an unprojected field changed)."""
     out = []
+    last = {}
     for l in stream:
         tag = l.split(' ', 1)[0]
         if tag in tags:
             f = tags[tag]
-            out.append(f(l) if f else l)
+            m = f(l) if f else l
+            if m is None:
+                continue
+            if tag in ('d', 'p', 'r', 'h', 'm', 's', 'n', 'q', 'z', 'wq', 'hsum'):
+                t = m.split(' ', 2)
+                k = tag if tag in ('q', 'z', 'wq') else tag + ' ' + (t[1] if len(t) > 1 else '')
+                if last.get(k) == m:
+                    continue
+                last[k] = m
+            out.append(m)
         elif tag in ('abort', 'abort-run', 'model-error', 'harness-error'):
             out.append(l)
     return out
